@@ -26,7 +26,8 @@ ASSUMPTIONS = ["influence/avg_sensitivity are not demanded for a node that is it
 def bounds(tier):
     q = tier == "quick"
     return {"transforms": [[2, 2, 3], [3, 2, 3], [1, 2, 3]] if q else [[2, 2, 3], [3, 2, 4], [1, 3, 3], [2, 3, 3]],
-            "props": [[2, 2, 3], [3, 1, 3], [3, 2, 2]] if q else [[2, 2, 3], [3, 1, 3], [3, 2, 3], [2, 3, 2]],
+            "props": [[2, 2, 3], [3, 1, 3], [3, 2, 2]] if q else [[2, 2, 3], [3, 1, 3], [3, 2, 3]],
+            "props_reduced": [] if q else [[2, 3, 2, ("and", "xor", "not")]],
             "cones": list(range(1, 6)) if q else list(range(1, 9))}
 
 
@@ -308,8 +309,15 @@ def run_transforms(job, acc):
             break
 
 
+def props_corpus(tier):
+    yield from corpus(bounds(tier)["props"])
+    for I, G, ar, types in bounds(tier)["props_reduced"]:
+        for gates in space.circuits(I, G, types=types, max_arity=ar, min_gates=G):
+            yield space.to_desc(I, gates, outputs="gates")
+
+
 def run_props(job, acc):
-    for _idx, desc in space.chunk(corpus(bounds(job["tier"])["props"]), job["chunk"], job["of"]):
+    for _idx, desc in space.chunk(props_corpus(job["tier"]), job["chunk"], job["of"]):
         c = space.build(desc)
         for n in sorted(c.graph.nodes):
             if c.graph.nodes[n]["type"] in ("0", "1"):
